@@ -511,6 +511,19 @@ fn adapter_type_in_container(doc: &Value, s: &Value, depth: usize) -> bool {
     let adapted = |x: &Value| { let (x, _) = resolve(doc, x); (x["type"] == serde_json::json!("string") && x["format"] == serde_json::json!("integer")) || (x["type"] == serde_json::json!("integer") && x["x-format"] == serde_json::json!("date")) };
     // the component itself is such a type (kept as a newtype or alias, where no field attribute can carry the adapter)
     if depth == 0 && adapted(s) { return true; }
+    // ... or an alias of such a type (allOf of one reference, possibly with annotation-only members)
+    if depth == 0 {
+        let mut cur = s.clone();
+        for _ in 0..6 {
+            let Some(a) = cur["allOf"].as_array().cloned() else { break };
+            let refs: Vec<&Value> = a.iter().filter(|m| m.get("$ref").is_some()).collect();
+            let extra: usize = a.iter().filter(|m| m.get("$ref").is_none()).map(|m| m.get("properties").and_then(|p| p.as_object()).map(|p| p.len()).unwrap_or(0)).sum();
+            if refs.len() != 1 || extra != 0 { break; }
+            let (t, _) = resolve(doc, refs[0]);
+            if adapted(t) { return true; }
+            cur = t.clone();
+        }
+    }
     for key in ["items", "additionalProperties"] {
         if let Some(e) = s.get(key) { if e.is_object() && (adapted(e) || adapter_type_in_container(doc, e, depth + 1)) { return true; } }
     }
